@@ -40,7 +40,8 @@ theorem digit_of_small (k : Nat) (hk : k < 10) : isDigit (UInt8.ofNat (48 + k)) 
   simpa using h
 
 theorem natToDecAux_spec : ∀ (fuel n : Nat) (acc : Bytes), n < fuel →
-    ∃ ds, natToDecAux fuel n acc = ds ++ acc ∧ ds ≠ [] ∧ ds.all isDigit = true ∧ ∀ a, digitsVal ds a = a * 10 ^ ds.length + n := by
+    ∃ ds, natToDecAux fuel n acc = ds ++ acc ∧ ds ≠ [] ∧ ds.all isDigit = true ∧ (∀ a, digitsVal ds a = a * 10 ^ ds.length + n) ∧
+      (ds.length = 1 ∨ 10 ^ (ds.length - 1) ≤ n) := by
   intro fuel
   induction fuel with
   | zero => intro n acc h; omega
@@ -50,26 +51,48 @@ theorem natToDecAux_spec : ∀ (fuel n : Nat) (acc : Bytes), n < fuel →
     unfold natToDecAux
     by_cases h0 : n / 10 = 0
     · simp only [h0, if_true]
-      refine ⟨[UInt8.ofNat (48 + n % 10)], rfl, by simp, by simp only [List.all_cons, List.all_nil, Bool.and_true]; exact hd.1, ?_⟩
+      refine ⟨[UInt8.ofNat (48 + n % 10)], rfl, by simp, by simp only [List.all_cons, List.all_nil, Bool.and_true]; exact hd.1, ?_, Or.inl rfl⟩
       intro a
       simp only [digitsVal, hd.2, List.length_cons, List.length_nil, Nat.zero_add, Nat.pow_one]
       omega
     · simp only [h0, if_false]
-      obtain ⟨ds, hds, hne, hall, hval⟩ := ih (n / 10) (UInt8.ofNat (48 + n % 10) :: acc) (by omega)
+      obtain ⟨ds, hds, hne, hall, hval, hlen⟩ := ih (n / 10) (UInt8.ofNat (48 + n % 10) :: acc) (by omega)
       refine ⟨ds ++ [UInt8.ofNat (48 + n % 10)], by rw [hds]; simp, by simp, by
-        rw [List.all_append, hall]; simp only [List.all_cons, List.all_nil, Bool.and_true, Bool.true_and]; exact hd.1, ?_⟩
-      intro a
-      rw [digitsVal_append, hval a]
-      simp only [digitsVal, hd.2, List.length_append, List.length_cons, List.length_nil, Nat.zero_add, Nat.pow_succ]
-      have := Nat.div_add_mod n 10
-      rw [Nat.add_mul, Nat.mul_assoc]
-      omega
+        rw [List.all_append, hall]; simp only [List.all_cons, List.all_nil, Bool.and_true, Bool.true_and]; exact hd.1, ?_, ?_⟩
+      · intro a
+        rw [digitsVal_append, hval a]
+        simp only [digitsVal, hd.2, List.length_append, List.length_cons, List.length_nil, Nat.zero_add, Nat.pow_succ]
+        have := Nat.div_add_mod n 10
+        rw [Nat.add_mul, Nat.mul_assoc]
+        omega
+      · right
+        simp only [List.length_append, List.length_cons, List.length_nil, Nat.zero_add, Nat.add_sub_cancel]
+        rcases hlen with h1 | h1
+        · rw [h1]; simp; omega
+        · have hpos : 0 < ds.length := by cases ds with
+            | nil => exact absurd rfl hne
+            | cons a b => simp
+          have e : ds.length = (ds.length - 1) + 1 := by omega
+          rw [e, Nat.pow_succ]
+          omega
 
-theorem natToDec_spec (n : Nat) : natToDec n ≠ [] ∧ (natToDec n).all isDigit = true ∧ digitsVal (natToDec n) 0 = n := by
-  obtain ⟨ds, hds, hne, hall, hval⟩ := natToDecAux_spec (n + 1) n [] (by omega)
+theorem natToDec_spec (n : Nat) : natToDec n ≠ [] ∧ (natToDec n).all isDigit = true ∧ digitsVal (natToDec n) 0 = n ∧
+    ((natToDec n).length = 1 ∨ 10 ^ ((natToDec n).length - 1) ≤ n) := by
+  obtain ⟨ds, hds, hne, hall, hval, hlen⟩ := natToDecAux_spec (n + 1) n [] (by omega)
   unfold natToDec
   rw [hds, List.append_nil]
-  exact ⟨hne, hall, by simpa using hval 0⟩
+  exact ⟨hne, hall, by simpa using hval 0, hlen⟩
+
+theorem natToDec_length (n : Nat) (h : n ≤ 9223372036854775807) : (natToDec n).length ≤ 19 := by
+  obtain ⟨_, _, _, hlen⟩ := natToDec_spec n
+  rcases hlen with h1 | h1
+  · omega
+  · by_cases hl : (natToDec n).length - 1 < 19
+    · omega
+    · exfalso
+      have : 10 ^ 19 ≤ 10 ^ ((natToDec n).length - 1) := Nat.pow_le_pow_right (by decide) (by omega)
+      have h19 : (10 : Nat) ^ 19 = 10000000000000000000 := by decide
+      omega
 
 /-! ### the value is always within int64 once a good value was seen -/
 
